@@ -5,6 +5,8 @@ import os
 import time
 
 VERIF = os.path.dirname(os.path.dirname(os.path.abspath(__file__)))
+# tools/seedmatrix.py runs the rule engine against deliberately broken trees; it must not overwrite the evidence of /repo
+OUT = os.environ.get('VERIF_SCRATCH_OUT') or VERIF
 
 DISCHARGED = 'discharged'
 VIOLATED = 'violated'
@@ -119,9 +121,9 @@ def finish(ctx, level, explanation, checker_cmd, trusted_base, t0, replay_only=N
     for o in known_hit:
         print('KNOWN-FINDING: property=%s %s %s' % (ctx.prop, o.key, known_keys[o.key].get('what', o.detail)))
     rc = 0
-    os.makedirs(os.path.join(VERIF, 'replays'), exist_ok=True)
+    os.makedirs(os.path.join(OUT, 'replays'), exist_ok=True)
     for o in new_viol:
-        rp = os.path.join(VERIF, 'replays', '%s-%s.json' % (ctx.prop, key_hash(o.key)))
+        rp = os.path.join(OUT, 'replays', '%s-%s.json' % (ctx.prop, key_hash(o.key)))
         with open(rp, 'w') as f:
             json.dump({'property': ctx.prop, 'obligation': o.to_json()}, f, indent=1)
         print('  refuted: [%s] %s at %s\n           %s' % (o.rule, o.role, o.loc or o.where, o.detail))
@@ -169,8 +171,8 @@ def finish(ctx, level, explanation, checker_cmd, trusted_base, t0, replay_only=N
         'wall_s': round(time.time() - t0, 3),
         'violations': len(new_viol),
     }
-    os.makedirs(os.path.join(VERIF, 'evidence'), exist_ok=True)
-    with open(os.path.join(VERIF, 'evidence', ctx.prop + '.json'), 'w') as f:
+    os.makedirs(os.path.join(OUT, 'evidence'), exist_ok=True)
+    with open(os.path.join(OUT, 'evidence', ctx.prop + '.json'), 'w') as f:
         json.dump(ev, f, indent=1, sort_keys=False)
     print('%s %s: %d obligations, %d discharged, %d unresolved, %d trusted(listed), %d violated (%d known) in %.1fs' % (
         ctx.prop, ctx.tier, n_ob, n_dis, n_unres, n_trust, len(viol), len(known_hit), time.time() - t0))
